@@ -21,6 +21,15 @@ def structure_list(tier, seed):
         if label.startswith("gas:") or label.startswith("zero_cell"):
             continue
         out.append((label, at))
+    # molecules without any cell, and with a rank-1 / rank-2 cell along non-periodic directions only
+    from ase.build import molecule
+
+    for name in ("H2O", "CH4", "C6H6"):
+        m = molecule(name)
+        out.append(("mol:%s.nocell" % name, m))
+        m2 = m.copy()
+        m2.set_cell([[9.0, 0, 0], [0, 0, 0], [0, 0, 0]])
+        out.append(("mol:%s.rank1cell" % name, m2))
     off = geom.GENERIC_OFFSETS[seed % 4] * 3
     gas = list(families.lattice_gas((2, 2, 2), max_atoms=3 if tier == "quick" else 5))
     for gi, (sites, cols) in enumerate(gas):
@@ -28,7 +37,7 @@ def structure_list(tier, seed):
             for pbc in geom.PBCS:
                 if tier == "quick" and (gi + sum(pbc)) % 2:
                     continue
-                kind = "none" if not any(pbc) and gi % 2 else ("skew" if gi % 3 == 0 else "cubic")
+                kind = "none" if (not any(pbc) and gi % 4 == 0) else ("skew" if gi % 3 == 0 else "cubic")
                 at = families.gas_atoms(sites, cols, (29, 8), spacing, (2, 2, 2), pbc, cell_kind=kind, offset=off)
                 if kind != "none" and gi % 4 == 0 and any(pbc):
                     k = [i for i in range(3) if pbc[i]][-1]
